@@ -23,7 +23,8 @@ BASES = [('plain', 'latin_1', False), ('plain', 'cp500', False), ('plain', 'lati
          ('gen', 'latin_1', False), ('min', 'latin_1', False), ('maxvar', 'latin_1', False), ('maxvar', 'cp500', True),
          ('z_de2', 'latin_1', False), ('z_pds', 'latin_1', False), ('z_icc', 'cp500', False), ('z_all', 'latin_1', False),
          ('z_all', 'cp500', True), ('u8_fixed', 'utf-8', False), ('u8_var', 'utf-8', False),
-         ('wide', 'latin_1', False), ('wide', 'cp500', True)]
+         ('wide', 'latin_1', False), ('wide', 'cp500', True), ('header', 'cp500', False), ('trailer', 'latin_1', False),
+         ('trailer', 'cp500', False)]
 
 
 def base_of(name, enc, hx):
